@@ -181,7 +181,10 @@ fn fence_acq(execution: &mut Execution) {
     for state in execution.objects.iter_mut::<State>() {
         // Iterate all the stores
         for store in state.stores_mut() {
-            if !store.first_seen.is_seen_by_current(&execution.threads) {
+            // Only stores the fencing thread has read (or written) itself: a
+            // store that some *other* thread in its causal past read does not
+            // synchronize with this fence.
+            if !store.first_seen.is_seen_by_active(&execution.threads) {
                 continue;
             }
 
@@ -886,6 +889,11 @@ impl FirstSeen {
         }
 
         false
+    }
+
+    /// True if the active thread itself has read (or written) the store.
+    fn is_seen_by_active(&self, threads: &thread::Set) -> bool {
+        self.0[threads.active_id().as_usize()] != u16::MAX
     }
 
     fn is_seen_before_yield(&self, threads: &thread::Set) -> bool {
